@@ -537,8 +537,13 @@ func (c *vf34CH) msg() []byte {
 var vf34ExtTypes = []uint16{0, 1, 5, 10, 11, 13, 16, 17, 18, 21, 23, 27, 28, 34, 35, 41, 42, 43, 44, 45, 47, 49, 50, 51, 57,
 	13172, 17513, 17613, 30032, 0xfd00, 0xfe0d, 0xff01, 0x0a0a, 1234}
 
+// vf34GenBytes draws a byte string of at most max bytes, with the boundary lengths 0..3 over-represented.
 func vf34GenBytes(rt *rapid.T, label string, max int) []byte {
-	return rapid.SliceOfN(rapid.Byte(), 0, max).Draw(rt, label)
+	n := rapid.OneOf(rapid.IntRange(0, 3), rapid.IntRange(0, max)).Draw(rt, label+"_len")
+	if n > max {
+		n = max
+	}
+	return rapid.SliceOfN(rapid.Byte(), n, n).Draw(rt, label)
 }
 
 var vf34Deltas = []int{-2, -1, 1, 2, 255, -255, 0x7fff, 0xffff}
@@ -563,9 +568,61 @@ func vf34PickExt(rt *rapid.T, c *vf34CH, label string) int {
 	return rapid.IntRange(0, len(c.Exts)-1).Draw(rt, label+"_any")
 }
 
+const vf34NumPSKVariants = 7
+
+// vf34PSKStructure rewrites the pre_shared_key extension (variant 0..6); false if the hello has none.
+func vf34PSKStructure(c *vf34CH, variant int, bl byte) bool {
+	for k := range c.Exts {
+		if c.Exts[k].Type != 41 {
+			continue
+		}
+		r := &vfRd{b: c.Exts[k].Body}
+		ids := append([]byte(nil), r.vec16()...)
+		binders := append([]byte(nil), r.vec16()...)
+		switch variant {
+		case 0:
+			binders = nil
+		case 1:
+			binders = append(binders, vf34Vec8(bytes.Repeat([]byte{1}, 32))...)
+		case 2:
+			if len(binders) > 1 {
+				binders[0] = bl
+			}
+		case 3:
+			ids = append(ids, ids...)
+		case 4:
+			if len(ids) > 8 {
+				ids[len(ids)/2] ^= 0x40 // corrupt the ticket
+			}
+		case 5:
+			ids = nil
+		default:
+			// an undecryptable copy of the first identity in front of the real one, binder list unchanged
+			ir := &vfRd{b: ids}
+			id0 := append([]byte(nil), ir.vec16()...)
+			age := append([]byte(nil), ir.take(4)...)
+			if !ir.err && len(id0) > 8 {
+				id0[len(id0)/2] ^= 0x55
+				ids = append(append(vf34Vec16(id0), age...), ids...)
+			}
+		}
+		c.Exts[k].Body = append(vf34Vec16(ids), vf34Vec16(binders)...)
+		return true
+	}
+	return false
+}
+
 // vf34MutateCH applies one drawn structural mutation and returns its name.
 func vf34MutateCH(rt *rapid.T, c *vf34CH, l string) string {
 	op := rapid.IntRange(0, 16).Draw(rt, l+"_op")
+	for _, e := range c.Exts {
+		if e.Type == 41 && rapid.IntRange(0, 3).Draw(rt, l+"_psk_bias") == 0 {
+			op = 13
+		}
+		if e.Type == 0xfe0d && rapid.IntRange(0, 7).Draw(rt, l+"_ech_bias") == 0 {
+			op = 14
+		}
+	}
 	i := vf34PickExt(rt, c, l+"_ext")
 	if i < 0 && op <= 9 {
 		op = 11
@@ -680,41 +737,9 @@ func vf34MutateCH(rt *rapid.T, c *vf34CH, l string) string {
 		return "length-lie"
 	case 13:
 		// PSK-specific: binder / identity list games
-		for k := range c.Exts {
-			if c.Exts[k].Type != 41 {
-				continue
-			}
-			r := &vfRd{b: c.Exts[k].Body}
-			ids := append([]byte(nil), r.vec16()...)
-			binders := append([]byte(nil), r.vec16()...)
-			switch rapid.IntRange(0, 6).Draw(rt, l+"_psk") {
-			case 6:
-				// an undecryptable copy of the first identity in front of the real one, binder list unchanged
-				ir := &vfRd{b: ids}
-				id0 := append([]byte(nil), ir.vec16()...)
-				age := append([]byte(nil), ir.take(4)...)
-				if !ir.err && len(id0) > 8 {
-					id0[len(id0)/2] ^= 0x55
-					ids = append(append(vf34Vec16(id0), age...), ids...)
-				}
-			case 0:
-				binders = nil
-			case 1:
-				binders = append(binders, vf34Vec8(bytes.Repeat([]byte{1}, 32))...)
-			case 2:
-				if len(binders) > 1 {
-					binders[0] = byte(rapid.SampledFrom([]int{0, 1, 31, 33, 255}).Draw(rt, l+"_bl"))
-				}
-			case 3:
-				ids = append(ids, ids...)
-			case 4:
-				if len(ids) > 8 {
-					ids[len(ids)/2] ^= 0x40 // corrupt the ticket
-				}
-			default:
-				ids = nil
-			}
-			c.Exts[k].Body = append(vf34Vec16(ids), vf34Vec16(binders)...)
+		v := rapid.IntRange(0, vf34NumPSKVariants-1).Draw(rt, l+"_psk")
+		bl := byte(rapid.SampledFrom([]int{0, 1, 31, 33, 255}).Draw(rt, l+"_bl"))
+		if vf34PSKStructure(c, v, bl) {
 			return "psk-structure"
 		}
 		return "psk-structure(no-psk)"
@@ -788,16 +813,24 @@ func vf34MutClass(m string) string {
 
 // ---- ECH sealing towards the server's key, with a (possibly mutated) encoded inner hello ----
 
-// vf34EncodedInner builds an EncodedClientHelloInner from the outer hello's own fields: TLS 1.3 only, inner marker,
-// a drawn subset of extensions compressed into ech_outer_extensions; then drawn mutations.
-func vf34EncodedInner(rt *rapid.T, outer *vf34CH) (enc []byte, muts []string) {
-	in := outer.clone()
+type vf34InnerOpts struct {
+	Compress func(idx int, t uint16) bool // which outer extensions go into ech_outer_extensions
+	OM       int                          // mutation of the outer_extensions list (0 = none)
+	At       int                          // position of ech_outer_extensions among the inner extensions (clamped)
+	Marker   int                          // 0 none, 1 "outer", 2 too long, else correct inner marker
+	SID      bool                         // non-empty session id (illegal in the encoded inner hello)
+}
+
+// vf34BuildInner builds the inner hello (not yet serialised) from the outer hello's own fields: TLS 1.3 only, inner
+// marker, a subset of extensions compressed into ech_outer_extensions.
+func vf34BuildInner(outer *vf34CH, o vf34InnerOpts) (in *vf34CH, muts []string) {
+	in = outer.clone()
 	in.SID = nil
 	in.LieHS, in.LieSID, in.LieSuites, in.LieComp, in.LieExts, in.LieExtIdx = 0, 0, 0, 0, 0, -1
 	in.Tail = nil
 	var exts []vfExt
 	var compress []uint16
-	for _, e := range in.Exts {
+	for idx, e := range in.Exts {
 		switch e.Type {
 		case 0xfe0d, 41, 21:
 			continue
@@ -808,7 +841,7 @@ func vf34EncodedInner(rt *rapid.T, outer *vf34CH) (enc []byte, muts []string) {
 			exts = append(exts, vfExt{0, append(vf34PutU16(nil, 3+len("example.test")), append([]byte{0, 0, byte(len("example.test"))}, "example.test"...)...)})
 			continue
 		}
-		if rapid.IntRange(0, 2).Draw(rt, fmt.Sprintf("compress_%d", len(exts)+len(compress))) == 0 && !vfIsGREASE(e.Type) {
+		if !vfIsGREASE(e.Type) && o.Compress != nil && o.Compress(idx, e.Type) {
 			compress = append(compress, e.Type)
 			continue
 		}
@@ -821,8 +854,7 @@ func vf34EncodedInner(rt *rapid.T, outer *vf34CH) (enc []byte, muts []string) {
 	if !has43 {
 		exts = append(exts, vfExt{43, []byte{2, 3, 4}}) // TLS 1.2-only parrot: the inner still has to offer 1.3 (leads to HRR)
 	}
-	// mutations of the outer_extensions list
-	om := rapid.SampledFrom([]int{0, 0, 0, 0, 0, 0, 6, 1, 2, 3, 4, 5, 7, 8, 9}).Draw(rt, "outer_exts_mut")
+	om := o.OM
 	switch om {
 	case 1:
 		compress = append(compress, 0xfe0d)
@@ -855,6 +887,10 @@ func vf34EncodedInner(rt *rapid.T, outer *vf34CH) (enc []byte, muts []string) {
 		}
 		body := vf34Vec8(l)
 		switch om {
+		case 6:
+			if len(compress) == 0 {
+				muts = append(muts, "outer-exts-empty-list")
+			}
 		case 7:
 			body = append(body, 0)
 			muts = append(muts, "outer-exts-trailing")
@@ -866,11 +902,12 @@ func vf34EncodedInner(rt *rapid.T, outer *vf34CH) (enc []byte, muts []string) {
 			body[0]--
 			muts = append(muts, "outer-exts-odd")
 		}
-		at := rapid.IntRange(0, len(exts)).Draw(rt, "outer_exts_at")
+		at := vf34Clamp(o.At, len(exts))
 		exts = append(exts[:at], append([]vfExt{{0xfd00, body}}, exts[at:]...)...)
+		muts = append(muts, "outer-exts-used")
 	}
 	marker := vfExt{0xfe0d, []byte{1}}
-	switch rapid.IntRange(0, 11).Draw(rt, "inner_marker") {
+	switch o.Marker {
 	case 0:
 		muts = append(muts, "inner-no-marker")
 	case 1:
@@ -886,16 +923,33 @@ func vf34EncodedInner(rt *rapid.T, outer *vf34CH) (enc []byte, muts []string) {
 	}
 	in.Exts = exts
 	in.HasExts = true
+	if o.SID {
+		in.SID = []byte{1, 2, 3}
+		muts = append(muts, "inner-session-id")
+	}
+	return in, muts
+}
+
+// vf34EncodedInner draws the options, builds the inner hello, applies drawn generic mutations and padding.
+func vf34EncodedInner(rt *rapid.T, outer *vf34CH) (enc []byte, muts []string) {
+	sel := map[int]bool{}
+	for idx := range outer.Exts {
+		sel[idx] = rapid.IntRange(0, 2).Draw(rt, fmt.Sprintf("compress_%d", idx)) == 0
+	}
+	o := vf34InnerOpts{
+		Compress: func(idx int, t uint16) bool { return sel[idx] },
+		OM:       rapid.SampledFrom([]int{0, 0, 0, 0, 0, 0, 6, 1, 2, 3, 4, 5, 7, 8, 9}).Draw(rt, "outer_exts_mut"),
+		At:       rapid.IntRange(0, 30).Draw(rt, "outer_exts_at"),
+		Marker:   rapid.IntRange(0, 11).Draw(rt, "inner_marker"),
+		SID:      rapid.IntRange(0, 7).Draw(rt, "inner_sid") == 0,
+	}
+	in, muts := vf34BuildInner(outer, o)
 	nm := rapid.IntRange(0, 2).Draw(rt, "inner_generic_muts")
 	if rapid.IntRange(0, 1).Draw(rt, "inner_clean") == 0 {
 		nm = 0
 	}
 	for k := 0; k < nm; k++ {
 		muts = append(muts, "inner:"+vf34MutateCH(rt, in, fmt.Sprintf("im%d", k)))
-	}
-	if rapid.IntRange(0, 7).Draw(rt, "inner_sid") == 0 {
-		in.SID = []byte{1, 2, 3}
-		muts = append(muts, "inner-session-id")
 	}
 	enc = in.body()
 	pad := rapid.IntRange(0, 40).Draw(rt, "inner_pad")
@@ -1299,6 +1353,74 @@ func TestVerifC34RawStreams(t *testing.T) {
 			return fmt.Sprintf("server=%s %v stream=%x", vf34SrvNames[sk], desc, stream)
 		})
 	})
+}
+
+// Directed (non-random) sweep over the structural classes that need several things to line up: every PSK rewrite on
+// every PSK-carrying base, every ech_outer_extensions rewrite / marker variant sealed towards the server's ECH key.
+func TestVerifC34DirectedStructures(t *testing.T) {
+	env := vf34GetEnv()
+	st := vfNewStats(t, "C34")
+	one := func(name string, sk int, msg []byte) *vf34Outcome {
+		st.Eval()
+		stream := vf34Record(22, 0x0301, msg)
+		if len(msg) > 16384 {
+			stream = append(vf34Record(22, 0x0301, msg[:16384]), vf34Record(22, 0x0301, msg[16384:])...)
+		}
+		o := vf34FeedServer(vf34ServerConfig(env, sk), stream)
+		st.NonTrivial("directed|" + name + "|" + vf34SrvNames[sk])
+		vf34Verdict(t, st, o, "directed "+name, func() string { return fmt.Sprintf("server=%s stream=%x", vf34SrvNames[sk], stream) })
+		return o
+	}
+	for _, b := range env.bases {
+		if b.Kind == "psk" {
+			for v := 0; v < vf34NumPSKVariants; v++ {
+				for _, sk := range []int{vf34SrvDefault, vf34SrvClientAuthAny, vf34SrvECH} {
+					c := vf34FromMsg(b.Msg)
+					vf34PSKStructure(c, v, 31)
+					one(fmt.Sprintf("psk-variant-%d/%s", v, b.Name), sk, c.msg())
+				}
+			}
+			o := one("psk-unmodified/"+b.Name, vf34SrvDefault, b.Msg)
+			if o.HSErr != nil && !strings.Contains(o.HSErr.Error(), "EOF") {
+				st.Class("directed:psk-base-not-accepted:" + vf34ErrClass(o.HSErr))
+			} else {
+				st.Class("directed:psk-base-accepted-until-EOF")
+			}
+		}
+	}
+	accepted := 0
+	for bi, b := range env.bases {
+		if b.Kind == "ticket12" || (b.Kind == "plain" && bi%6 != 0) {
+			continue
+		}
+		for om := 0; om <= 9; om++ {
+			for marker := 0; marker <= 3; marker++ {
+				if om != 0 && marker != 3 && (om+marker)%3 != 0 {
+					continue
+				}
+				outer := vf34FromMsg(b.Msg)
+				in, _ := vf34BuildInner(outer, vf34InnerOpts{
+					Compress: func(idx int, t uint16) bool { return t == 10 || t == 13 || t == 51 || t == 16 || t == 45 },
+					OM:       om, At: om % 4, Marker: marker})
+				msg, err := vf34SealECH(env, outer, in.body(), uint16(1+om%3))
+				if err != nil {
+					t.Fatalf("harness: cannot seal: %v", err)
+				}
+				o := one(fmt.Sprintf("ech-inner-om%d-marker%d/%s/%s", om, marker, b.Name, b.Kind), []int{vf34SrvECH, vf34SrvALPNRequestCert}[(om+marker)%2], msg)
+				if o.ECHAccepted {
+					accepted++
+				}
+				if om == 0 && marker == 3 && !o.ECHAccepted {
+					st.Class("directed:clean-ech-not-accepted")
+					st.Extra("clean_ech_not_accepted_example", fmt.Sprintf("%s/%s: %v", b.Name, b.Kind, o.HSErr))
+				}
+			}
+		}
+	}
+	st.Extra("directed_ech_accepted", accepted)
+	if accepted == 0 {
+		t.Fatalf("harness: no directed ECH hello was accepted by the server: the sealing generator is broken")
+	}
 }
 
 // ---------------------------------------------------------------------------------------------------------------
